@@ -473,6 +473,10 @@ func (p *Parser) parseDict() (core.Object, error) {
 	for p.pos < len(p.data) {
 		p.skipWhitespace()
 
+		if p.pos >= len(p.data) {
+			return nil, fmt.Errorf("unclosed dictionary")
+		}
+
 		if p.pos+1 < len(p.data) && p.data[p.pos] == '>' && p.data[p.pos+1] == '>' {
 			p.pos += 2
 			break
